@@ -29,7 +29,7 @@ SPEC = {
     "corr_modules": ["NDB.Corr.C23"],
     "theorems": ["C23_truth_tables", "C23_de_morgan", "C23_null_propagates", "C23_eq_equivalence",
                  "C23_cmp_consistent", "C23_numeric_exact", "C23_temporal_refuted", "C23_overflow_rule",
-                 "C23_eq_equivalence_all"],
+                 "C23_eq_equivalence_all", "C23_cmp_consistent_lists"],
     "allowed_axioms": ALLOWED_PRIMITIVES,
     "harness_pkg": "hx_cypher",
     "harness_bin": "c23",
@@ -38,8 +38,9 @@ SPEC = {
     "assumptions": [
         "quantifier: all values for the logic laws and null propagation; = is proved an equivalence on all values without null/NaN "
         "at any depth (nested lists and maps included); the laws relating < <= > >= to each other and to = are proved for "
-        "booleans, all i64, all non-NaN doubles and all byte strings (for lists they are checked on the implementation by the "
-        "direct search and the correspondence only)",
+        "booleans, all i64, all non-NaN doubles and all byte strings, and (C23_cmp_consistent_lists) for lists nested arbitrarily: "
+        "flip laws for all values without temporal strings, negation laws for all lists, and the laws involving = for lists "
+        "without null/NaN/temporal strings",
         "strings: laws relating < <= > >= to = are proved for every temporal classification except pairs of strings of the same "
         "temporal kind (K-C23-temporal, refuted by C23_temporal_refuted); transitivity of < for strings that are not temporal",
         "`^`, duration maps and temporal arithmetic are outside the model (`%` on floats is modelled exactly as C fmod)",
@@ -50,7 +51,8 @@ SPEC = {
                 "De Morgan for all values; null propagates through every comparison/arithmetic operator; = is reflexive, symmetric, "
                 "transitive and never null on booleans, all i64, all non-NaN doubles and byte strings; < <= > >= are mutually "
                 "consistent, consistent with = (outside the recorded temporal-string class, for which a refuting witness is proved) "
-                "and exact between integers and doubles; + - * unary- abs and reduce follow one rule (exact if the result is an "
+                "and exact between integers and doubles; the same mutual consistency and consistency with = on lists nested "
+                "arbitrarily (the ORDER BY order says Equal exactly when = says true); + - * unary- abs and reduce follow one rule (exact if the result is an "
                 "i64, else float). The engine is run on generated expressions (real Cypher through prepare/execute) and the model is "
                 "evaluated on the same operands inside Coq; the laws are also searched directly on the engine's answers.",
         "design_ref": "DESIGN.md §5 C23",
